@@ -5,6 +5,7 @@ package jtp
 import (
 	"math/rand"
 	"net/url"
+	"strings"
 	"servitor/verifkit"
 	"servitor/verifsim"
 	"testing"
@@ -112,8 +113,14 @@ func verifRandomSession(rng *rand.Rand, long bool) verifSessionIn {
 	hosts := []string{"h1", "h2", "h3"}
 	n := 3 + rng.Intn(6)
 	ids := make([]string, n)
+	dirs := []string{"/", "/", "/d/", "/d/e/", "/users/x/"}
 	for i := range ids {
-		ids[i] = hosts[rng.Intn(len(hosts))] + "/" + string(rune('a'+i))
+		ids[i] = hosts[rng.Intn(len(hosts))] + dirs[rng.Intn(len(dirs))] + string(rune('a'+i))
+		if i > 0 && rng.Intn(8) == 0 {
+			/* same path as an earlier URL, told apart by the query only */
+			base, _, _ := strings.Cut(ids[rng.Intn(i)], "?")
+			ids[i] = base + "?page=" + string(rune('a'+i))
+		}
 	}
 	world := map[string]verifsim.Resp{}
 	for i, id := range ids {
@@ -163,6 +170,14 @@ func verifRandomSession(rng *rand.Rand, long bool) verifSessionIn {
 			kind = "webfinger"
 		}
 		fetches[i] = verifFetch{Url: ids[rng.Intn(n)], Kind: kind, Budget: uint(rng.Intn(5))}
+		/* the same URL again with a budget one or two smaller: a warm cache must not stretch it */
+		if i > 0 && rng.Intn(3) == 0 && fetches[i-1].Budget > 0 {
+			fetches[i] = fetches[i-1]
+			fetches[i].Budget -= uint(1 + rng.Intn(int(fetches[i-1].Budget)))%(fetches[i-1].Budget+1)
+			if fetches[i].Budget == fetches[i-1].Budget {
+				fetches[i].Budget--
+			}
+		}
 	}
 	return verifSessionIn{World: world, Cap: 1 + rng.Intn(4), Fetches: fetches}
 }
